@@ -35,6 +35,19 @@ THEOREMS = [
     "Rtosc.C12.load_save_restores_text_ports",
     "Rtosc.C12.untouched_text_is_header",
     "Rtosc.C12.posinf_text_counterexample",
+    # array lines with compressed runs: which arrays are covered (ArrCutOK), from the values
+    "Rtosc.C12.array_line_decided",
+    "Rtosc.C12.array_line_no_long_run",
+    "Rtosc.C12.array_line_constant",
+    "Rtosc.C12.array_line_arithmetic",
+    "Rtosc.C12.array_cut_extends",
+    "Rtosc.C12.array_line_floats",
+    "Rtosc.C12.array_line_toggles",
+    "Rtosc.C12.array_line_strings",
+    "Rtosc.C12.array_line_symbols",
+    "Rtosc.C12.float_array_port_ok",
+    "Rtosc.C12.toggle_array_port_ok",
+    "Rtosc.C12.runs_lines_ok",
 ]
 VERIF = os.path.dirname(os.path.dirname(os.path.dirname(os.path.abspath(__file__))))
 # the application pool is fixed (seeded by constants): regenerate the C++ when the generator changes
@@ -95,7 +108,10 @@ ASSUMPTIONS = [
     "text level: the application name is a word of at most 127 one-byte characters without white space (what `%127s` reads "
     "back; NameTextOK); port addresses start with '/', consist of one-byte characters without white space and are shorter than "
     "8190 characters (AddrTextOK; the port name buffer of dispatch_printed_messages has 8192); the printer's 8192-byte buffer "
-    "is large enough (C10's printer model has no buffer bound: rString capacities of the pool stay far below)",
+    "is large enough (C10's printer model has no buffer bound: rString capacities of the pool stay far below); an array line "
+    "is covered when the printer cuts its elements into plain values, constant runs and int32 arithmetic runs (ArrCutOK: the "
+    "answers of the model of rtosc_convert_to_range on the elements left in the array; decidable per array: arrCutB); the "
+    "dispatch loop's expansion of the scanned repetition/range blocks is C16's model of rtosc_arg_val_itr",
     "prerequisite fixes of other properties applied: fixes/C10-02 (the scanner took \"-16 -68\" for a date), "
     "fixes/C10-14 (a char parameter holding NUL was printed as a raw NUL); found through C12's generators",
 ]
@@ -132,13 +148,44 @@ LEVEL_TEXT = ("Lean theorems over the abstract application model, for every appl
               "Covered: scalar ports of every kind - rParamI (every int32), rParam char (NUL, 7..13, 32..126), rParamF "
               "(every finite float, lossless spelling), rToggle, rOption (symbols of printable characters, or ints), rString "
               "(printable bytes and C escapes: quotes, backslashes, '%', tabs, newlines with continuation lines) - and array "
-              "lines without five consecutive elements of one type tag (up to four printed elements of int/char/float/option/"
-              "string arrays; toggle arrays of any length without five equal neighbours)")
+              "lines of ANY length of such values (one type per array) whose elements the printer cuts into plain values, "
+              "constant runs of five or more equal values (`[5x7]`, `[6x0.50 (0x1p-1)]`, `[5xtrue 6xfalse]`; ints, chars, "
+              "floats, toggles, option symbols, strings) and int32 arithmetic runs of five or more values (`[1 ... 6]`, "
+              "`[3 5 ... 13]`), in any number and order (hypothesis ArrCutOK: at every segment start "
+              "rtosc_convert_to_range, called on the elements left in the array as the printer's array loop does, answers "
+              "nothing / the whole constant run / the whole int32 run, the run within C10's overflow guards RunHyp). The "
+              "scanner returns repetition and range blocks for such a line; the theorems include their expansion by the "
+              "rtosc_arg_val_itr loop of dispatch_printed_messages (C16's iterator model, C16's bridge lemmas), so "
+              "saved_line_scans_back, load_text_of_save_text, load_save_restores_text_partial and "
+              "load_save_restores_text_ports hold for these lines with unchanged statements (LineTextOK widened; "
+              "C10's printLoop_asegs / scanArgVal_arrSegs / skipNext_arrSegs are the lemmas for the text stages). "
+              "ArrCutOK is decided for a concrete array by arrCutB (array_line_decided: it runs the model of "
+              "rtosc_convert_to_range on the elements and checks every answer) and derived from the values for arrays of "
+              "any length: array_line_constant (n >= 5 equal covered values, n < 2^31), array_line_arithmetic (one int32 "
+              "run), array_cut_extends (a value in front of fewer than five cells of its type / a constant run in front of a "
+              "non-identical value / an int32 run in front of a value that does not continue it extends a covered rest), "
+              "array_line_no_long_run (the former clause, no five consecutive elements of one type tag, is an instance). "
+              "For four kinds the hypothesis is discharged for EVERY array, any length below 2^31 and any content: "
+              "array_line_floats (finite floats: rtosc_convert_to_range makes no arithmetic run of floats, the segments are "
+              "the maximal runs of five or more bit-identical values and plain values - closed form cutC), "
+              "array_line_toggles, array_line_strings, array_line_symbols (option symbols); float_array_port_ok / "
+              "toggle_array_port_ok reduce the port condition ItemTextOK of load_save_restores_text_ports for rArrayF / "
+              "rArrayT ports to 'text address, finite elements'. "
+              "Non-vacuity: a well-formed application with an array port whose file `/a [5x7 1]` is loaded back "
+              "(runs_lines_ok and the example behind it)")
 LEVEL_NOTE = ("partial: the theorems about presence, rejection and ordering are about abstract lines; the text level "
               "(load_save_restores_text_partial) is proved for the value classes listed above and is open for: array lines "
-              "with five or more consecutive elements of one type (the printer compresses runs `[5x7]`, `[1 ... 6]`; C10 has "
-              "no theorem for runs inside arrays - the Lean text model expands them with C16's iterator and agreed with the "
-              "library on every generated file, but that is evidence, not proof), chars 1..6/14..31/127, string and symbol "
+              "in which rtosc_convert_to_range gives an answer outside C10's run segments - an arithmetic run of five or "
+              "more chars inside an array (`['a' ... 'f']`; C10's run segments RSeg are int32 only; arrays of 'h' values and "
+              "nested arrays do not occur in savefiles) or an int32 run that fails a guard of C10's RunHyp (none is known: "
+              "the printer's own overflow guards are expected to imply them, which is not proved); for int and char "
+              "arrays the hypothesis ArrCutOK is stated through the model of rtosc_convert_to_range: a closed-form description "
+              "of its answers on arbitrary int32 values (a total 'every int array is covered' theorem, as proved for float, "
+              "toggle, string and symbol arrays) is not proved - only the decision procedure arrCutB and the sufficient "
+              "criteria listed above (an int in front of five or more ints that start no run, e.g. `[1 2 6x0]`, is handled by "
+              "arrCutB but by no closed-form criterion; the char-run line `/a ['a' ... 'f' 'x']` does load back when the "
+              "text model is evaluated - unproved, not refuted); chars "
+              "1..6/14..31/127, string and symbol "
               "bytes outside 7..13/32..126, -infinity and NaN; +infinity is refuted (posinf_text_counterexample: the text "
               "model prints `/f inf (inf)` and load_from_file on it returns a negative result - C12-K9, also "
               "load_save_restores_scanned_partial / posinf_not_restored_counterexample at the abstract level); the header "
